@@ -218,7 +218,9 @@ impl NodeId {
             data_ok(final(arena).nodes@),
             // @ob C07.free_list_well_formed@detach C07 C08
             final(arena).fl_ok(),
-            // @ob C03.detach_exact_effect C03 C08
+            // @ob C08.detach_keeps_every_payload_and_stamp C08
+            payload_frame(old(arena).nodes@, final(arena).nodes@),
+            // @ob C03.detach_exact_effect C03
             detach_post(old(arena).nodes@, final(arena).nodes@, self.idx()),
             final(arena).first_free_slot == old(arena).first_free_slot,
             final(arena).last_free_slot == old(arena).last_free_slot,
@@ -322,7 +324,9 @@ impl NodeId {
             r is Err ==> final(arena).nodes@ == old(arena).nodes@,
             final(arena).first_free_slot == old(arena).first_free_slot,
             final(arena).last_free_slot == old(arena).last_free_slot,
-            // @ob C03.append_exact_effect C03 C08
+            // @ob C08.append_keeps_every_payload_and_stamp C08
+            payload_frame(old(arena).nodes@, final(arena).nodes@),
+            // @ob C03.append_exact_effect C03
             r is Ok ==> exists|m: Seq<Node<T>>| #[trigger]
                 detach_post(old(arena).nodes@, m, new_child.idx()) && insert_post(
                     m,
@@ -521,7 +525,9 @@ impl NodeId {
             r is Err ==> final(arena).nodes@ == old(arena).nodes@,
             final(arena).first_free_slot == old(arena).first_free_slot,
             final(arena).last_free_slot == old(arena).last_free_slot,
-            // @ob C03.prepend_exact_effect C03 C08
+            // @ob C08.prepend_keeps_every_payload_and_stamp C08
+            payload_frame(old(arena).nodes@, final(arena).nodes@),
+            // @ob C03.prepend_exact_effect C03
             r is Ok ==> exists|m: Seq<Node<T>>| #[trigger]
                 detach_post(old(arena).nodes@, m, new_child.idx()) && insert_post(
                     m,
@@ -663,7 +669,9 @@ impl NodeId {
             r is Err ==> final(arena).nodes@ == old(arena).nodes@,
             final(arena).first_free_slot == old(arena).first_free_slot,
             final(arena).last_free_slot == old(arena).last_free_slot,
-            // @ob C03.insert_after_exact_effect C03 C08
+            // @ob C08.insert_after_keeps_every_payload_and_stamp C08
+            payload_frame(old(arena).nodes@, final(arena).nodes@),
+            // @ob C03.insert_after_exact_effect C03
             r is Ok ==> exists|m: Seq<Node<T>>| #[trigger]
                 detach_post(old(arena).nodes@, m, new_sibling.idx()) && insert_post(
                     m,
@@ -809,7 +817,9 @@ impl NodeId {
             r is Err ==> final(arena).nodes@ == old(arena).nodes@,
             final(arena).first_free_slot == old(arena).first_free_slot,
             final(arena).last_free_slot == old(arena).last_free_slot,
-            // @ob C03.insert_before_exact_effect C03 C08
+            // @ob C08.insert_before_keeps_every_payload_and_stamp C08
+            payload_frame(old(arena).nodes@, final(arena).nodes@),
+            // @ob C03.insert_before_exact_effect C03
             r is Ok ==> exists|m: Seq<Node<T>>| #[trigger]
                 detach_post(old(arena).nodes@, m, new_sibling.idx()) && insert_post(
                     m,
@@ -1750,7 +1760,9 @@ pub fn connect_neighbors<T>(
         next is Some ==> !old(arena).at(next->0).stamp.removed() && old(arena).at(next->0).parent == parent,
         previous is Some && next is Some ==> (previous->0).idx() != (next->0).idx(),
     ensures
-        // @ob C03.connect_neighbors_exact_effect C03 C04 C01 C08
+        // @ob C08.connect_neighbors_keeps_every_payload_and_stamp C08
+        payload_frame(old(arena).nodes@, final(arena).nodes@),
+        // @ob C03.connect_neighbors_exact_effect C03 C04 C01
         connect_post(old(arena).nodes@, final(arena).nodes@, parent, previous, next),
         final(arena).first_free_slot == old(arena).first_free_slot,
         final(arena).last_free_slot == old(arena).last_free_slot,
@@ -1837,7 +1849,9 @@ pub fn insert_with_neighbors<T>(
         data_ok(final(arena).nodes@),
         // @ob C07.free_list_well_formed@insert_with_neighbors C07 C08
         final(arena).fl_ok(),
-        // @ob C03.insert_exact_effect C03 C08
+        // @ob C08.insert_keeps_every_payload_and_stamp C08
+        payload_frame(old(arena).nodes@, final(arena).nodes@),
+        // @ob C03.insert_exact_effect C03
         insert_post(old(arena).nodes@, final(arena).nodes@, new, parent, previous_sibling, next_sibling),
         final(arena).first_free_slot == old(arena).first_free_slot,
         final(arena).last_free_slot == old(arena).last_free_slot,
@@ -1899,7 +1913,9 @@ pub fn insert_last_unchecked<T>(arena: &mut Arena<T>, new: NodeId, parent: NodeI
         data_ok(final(arena).nodes@),
         // @ob C07.free_list_well_formed@insert_last_unchecked C07 C08
         final(arena).fl_ok(),
-        // @ob C03.insert_last_exact_effect C03 C08
+        // @ob C08.insert_last_keeps_every_payload_and_stamp C08
+        payload_frame(old(arena).nodes@, final(arena).nodes@),
+        // @ob C03.insert_last_exact_effect C03
         insert_post(old(arena).nodes@, final(arena).nodes@, new, Some(parent), old(arena).at(parent).last_child, None),
         final(arena).first_free_slot == old(arena).first_free_slot,
         final(arena).last_free_slot == old(arena).last_free_slot,
@@ -1959,7 +1975,9 @@ impl SiblingsRange {
             r.last == self.last,
             final(arena).first_free_slot == old(arena).first_free_slot,
             final(arena).last_free_slot == old(arena).last_free_slot,
-            // @ob C03.detach_from_siblings_exact_effect C03 C04 C01 C08
+            // @ob C08.detach_from_siblings_keeps_every_payload_and_stamp C08
+            payload_frame(old(arena).nodes@, final(arena).nodes@),
+            // @ob C03.detach_from_siblings_exact_effect C03 C04 C01
             detach_range_post(old(arena).nodes@, final(arena).nodes@, self.first.idx(), self.last.idx()),
             // @ob C03.detaching_a_detached_root_changes_nothing C03
             is_root(old(arena).nodes@, self.first.idx()) && self.first == self.last ==> final(arena).nodes@ == old(arena).nodes@,
@@ -2051,7 +2069,9 @@ impl DetachedSiblingsRange {
                 is_chain(old(arena).nodes@, self.first.idx(), c) ==> (res is Err ==> new_parent is Some && c.contains(
                     new_parent->0.idx(),
                 )),
-            // @ob C03.rewrite_parents_exact_effect C03 C04 C01 C08
+            // @ob C08.rewrite_parents_keeps_every_payload_and_stamp C08
+            payload_frame(old(arena).nodes@, final(arena).nodes@),
+            // @ob C03.rewrite_parents_exact_effect C03 C04 C01
             forall|c: Seq<int>| #[trigger]
                 is_chain(old(arena).nodes@, self.first.idx(), c) ==> (res is Ok ==> reparent_post(
                     old(arena).nodes@,
@@ -2124,7 +2144,9 @@ impl DetachedSiblingsRange {
             res is Ok,
             final(arena).first_free_slot == old(arena).first_free_slot,
             final(arena).last_free_slot == old(arena).last_free_slot,
-            // @ob C03.transplant_exact_effect C03 C04 C01 C08
+            // @ob C08.transplant_keeps_every_payload_and_stamp C08
+            payload_frame(old(arena).nodes@, final(arena).nodes@),
+            // @ob C03.transplant_exact_effect C03 C04 C01
             forall|c: Seq<int>| #[trigger]
                 is_chain(old(arena).nodes@, self.first.idx(), c) ==> transplant_post(
                     old(arena).nodes@,
